@@ -37,6 +37,8 @@ def run(prog, chk):
     pipeline(prog, chk)
     prev_point(prog, chk)
     identical_operands(prog, chk)
+    from props import geomalg
+    geomalg.check(prog, chk, "C09", floor=47)
 
 
 def _variant_of(n):
